@@ -1540,6 +1540,20 @@ func (c *CAManager) AuthorizeAndSignCertificate(csr *x509.CertificateRequest, au
 	return c.SignCertificate(csr, spiffeID)
 }
 
+// isSameAgentURI reports whether uri identifies the same agent as the canonical
+// agent URI original.
+func isSameAgentURI(uri, original *url.URL) bool {
+	if uri.String() == original.String() {
+		return true
+	}
+	parsed, err := connect.ParseCertURI(uri)
+	if err != nil {
+		return false
+	}
+	agentID, ok := parsed.(*connect.SpiffeIDAgent)
+	return ok && agentID.URI().String() == original.String()
+}
+
 func (c *CAManager) SignCertificate(csr *x509.CertificateRequest, spiffeID connect.CertURI) (*structs.IssuedCert, error) {
 	provider, caRoot := c.getCAProvider()
 	if provider == nil {
@@ -1596,7 +1610,12 @@ func (c *CAManager) SignCertificate(csr *x509.CertificateRequest, spiffeID conne
 			// recreate the URIs list
 			uris := make([]*url.URL, len(csr.URIs))
 			for i, uri := range csr.URIs {
-				if originalURI.String() == uri.String() {
+				// Compare the parsed identities rather than the rendered
+				// strings: a URI that is not in canonical form (escaped
+				// characters, query string, ...) still names this agent and
+				// must not be copied into the certificate with its foreign
+				// trust domain.
+				if isSameAgentURI(uri, originalURI) {
 					uris[i] = agentID.URI()
 				} else {
 					uris[i] = uri
